@@ -46,7 +46,7 @@ NonConst == { Var("x"), Pro, Idx(Var("x"), N(0)), Call("f", <<N(1)>>), RollE(Var
 PLits == { PLit(<<PW("abc"), PW("de")>>), PLit(<<PW("a"), PD, PW("ab"), PS("'s")>>) }
 Atoms == Consts \cup StrConsts \cup NonConst
 AtomsQ == { N(0), N(3), Lit(Fin(32)), N(-5), S("hi"), Var("x"), Pro, Call("f", <<N(1)>>), RollE(Var("x")), Lit(Bool(TRUE)), Lit(Null), Lit(Myst),
-            RollE(N(5)), Idx(N(5), N(1)) }
+            RollE(N(5)), Idx(N(5), N(1)), Lit(PInf) }
 Ops == { "plus", "minus", "times", "over", "lt", "and", "eq" }
 
 E1(A) == { Un(o, a) : o \in {"neg", "not"}, a \in A } \cup { Bin(o, a, <<b>>) : o \in Ops, a \in A, b \in A }
